@@ -2,7 +2,7 @@ SPECIFICATION Spec
 CONSTANTS
   RepAll = FALSE
   Mode = "mc"
-  MaxNodes = 3
+  MaxNodes = 4
   Enabled = {"Module", "Fn", "Const", "Int", "Bool", "Char", "Str", "Deref", "Len", "SizeOf", "As", "Un", "BFCall", "TyPrim", "TyNamed", "Import", "If", "Goto"}
   FlagSets <- FlagSets_none
   VarForms <- VarForms_init
@@ -14,20 +14,20 @@ CONSTANTS
   MemberNames = {"m"}
   TypeNames = {"S"}
   ConstNames = {"N"}
-  Builtins = {"abort", "format", "print", "eprint", "file", "line", "dbg", "panic", "include_bytes"}
-  PrimTypes = {"i8", "i16", "i32", "i64", "i128", "u8", "u16", "u32", "u64", "u128", "usize", "bool", "char8"}
+  Builtins = {"print", "abort"}
+  PrimTypes = {"u8", "bool"}
   WordSizes = {8}
-  Files <- Files_all
-  IntLits <- IntLits_all
-  CharLits <- CharLits_all
-  StrLits <- StrLits_all
+  Files <- Files_one
+  IntLits <- IntLits_two
+  CharLits <- CharLits_one
+  StrLits <- StrLits_one
   ArrayLens <- ArrayLens_one
   AddOps = {"+"}
   MulOps = {"*"}
   BitOps = {"&"}
   ShiftOps = {"<<"}
   UnOps = {"-", "!"}
-  CmpOps = {"==", "!=", "<", ">", "<=", ">="}
+  CmpOps = {"==", "<="}
   MaxDecls = 1
   MaxParams = 0
   MaxMembers = 0
@@ -37,7 +37,7 @@ CONSTANTS
   MaxElems = 0
   MaxFields = 0
   MaxSteps = 0
-  Addrs = {0, 1, 2, 3}
+  Addrs = {0, 2}
   SetAddrs = {0}
   LenAddrs = {0}
   TrailingCommas = {FALSE}
